@@ -50,7 +50,7 @@ CLAIMED = {
               "oracle = refsem furthest-failure bookkeeping"),
     "C07": _t("Well-formedness of every captured span/slice: start<=end<=len, character boundaries on &str (1-4 byte characters), "
               "children nested and ordered in the parent, empty matches get empty spans between their neighbours, to_slice is the caller's "
-              "memory (pointer identity) and equals input[span], token-carried gapped spans (Input::map) span first.start..last.end; span "
+              "memory (pointer identity) and equals input[span], token-carried gapped spans (Input::map by value and by reference, IterInput; end-of-input span beyond the last token, possibly non-empty) span first.start..last.end; span "
               "arguments of try_map / validate / foldl_with / foldr_with — for all inputs within the bounds.", "direct invariants on the real run"),
     "C08": _t("recover_with(via_parser | skip_until | skip_then_retry_until) at top level, inside or, inside repeated, under or_not and "
               "nested: transparent where p succeeds; strategy output plus exactly one extra error otherwise; both fail => failure, nothing "
